@@ -30,9 +30,15 @@ for f in ["/verif/work/muttest_final.log"]:
 index = []
 for d, (sid, v) in sorted(ok.items(), key=lambda kv: kv[1][0]):
     c = caught.get(d, {})
-    subprocess.run(["python3", "/verif/tools/keep_seeded.py", d, sid, v] + sorted(c), check=True, capture_output=True)
     mp = os.path.join("/verif/seeded", sid, "meta.json")
+    if os.path.isdir(d):
+        subprocess.run(["python3", "/verif/tools/keep_seeded.py", d, sid, v] + sorted(c), check=True, capture_output=True)
+    elif not os.path.exists(mp):
+        continue            # neither the author's directory nor a kept copy
     meta = json.load(open(mp))
+    if not os.path.isdir(d):  # an earlier round: the scratch worktree is gone, the kept copy is what there is
+        c = dict(meta.get("caught_by_detail", {}), **c)
+        meta["caught_by"] = sorted(c)
     meta["caught_by_detail"] = c
     meta["not_caught_by"] = sorted(k for k in missed.get(d, {}) if k not in c)
     json.dump(meta, open(mp, "w"), indent=1)
